@@ -138,7 +138,7 @@ def run_one(ch):
             fdesc = None
             if fkind == 1:
                 k = ch.pick("fk", [0, 1, max(0, size - 1), size // 2])
-                err = ch.pick("ferr", ["ENOSPC", "EIO"])
+                err = ch.pick("ferr", ["ENOSPC", "EIO", "SHORT"])
                 plan = [{"op": "write", "kind": err, "after": k}]
                 fdesc = f"write-{err}-after-{k}"
             elif fkind == 2:
